@@ -13,6 +13,7 @@
 // memory-safety defects owned by C12): a dying child counts as "not accepted", its input is handed to C12.
 #include "fix.hh"
 #include <sys/wait.h>
+#include <sys/resource.h>
 #include <sys/types.h>
 #include <signal.h>
 #include <fcntl.h>
@@ -65,7 +66,7 @@ struct Key {
   std::vector<gcry_mpi_t> sec;        // rsa: d p q u; elg/dsa: x; ecc: d
   const tmcg_openpgp_byte_t *oid = nullptr; size_t oidlen = 0; std::string curve;
   tmcg_openpgp_hashalgo_t kdfh = TMCG_OPENPGP_HASHALGO_SHA256; tmcg_openpgp_skalgo_t kdfs = TMCG_OPENPGP_SKALGO_AES128;
-  unsigned qbits = 0; bool ecc = false, can_sign = false;
+  unsigned qbits = 0; bool ecc = false, can_sign = false; double verify_ms = 1; // measured cost of one verification in the sanitized build
 };
 static gcry_mpi_t mpi_from_bytes(const Oct &b) { gcry_mpi_t m = nullptr; gcry_mpi_scan(&m, GCRYMPI_FMT_USG, b.data(), b.size(), NULL); return m; }
 static Oct mpi_bytes(gcry_mpi_t m) { size_t n = (gcry_mpi_get_nbits(m) + 7) / 8; Oct o(n ? n : 1, 0); size_t w = 0; if (n) gcry_mpi_print(GCRYMPI_FMT_USG, o.data(), n, &w, m); o.resize(n); return o; }
@@ -86,7 +87,7 @@ static const KeySpec KEYSPECS[] = {
   {"eddsa-a", "(genkey (ecc (curve Ed25519)(flags eddsa)))", TMCG_OPENPGP_PKALGO_EDDSA, "Ed25519"},
   {"eddsa-b", "(genkey (ecc (curve Ed25519)(flags eddsa)))", TMCG_OPENPGP_PKALGO_EDDSA, "Ed25519"},
   {"elg2048", "(genkey (elg (nbits 4:2048)(transient-key)))", TMCG_OPENPGP_PKALGO_ELGAMAL, ""},
-  {"rsa2048e", "(genkey (rsa (nbits 4:2048)(transient-key)))", TMCG_OPENPGP_PKALGO_RSA_ENCRYPT_ONLY, ""},
+  {"rsa2048e", "(genkey (rsa (nbits 4:2048)(transient-key)))", TMCG_OPENPGP_PKALGO_RSA, ""}, // used as encryption subkey only
   {"ecdh25519", "(genkey (ecc (curve Curve25519)(flags djb-tweak)))", TMCG_OPENPGP_PKALGO_ECDH, "Curve25519"},
   {"ecdh256", "(genkey (ecdh (curve \"NIST P-256\")))", TMCG_OPENPGP_PKALGO_ECDH, "NIST P-256"},
 };
@@ -95,8 +96,15 @@ static Key *load_key(const KeySpec &sp) {
   std::string text = cached_fixture(std::string("c20key-") + sp.name, [&]() {
     gcry_sexp_t parms = nullptr, k = nullptr; size_t eo = 0;
     if (gcry_sexp_build(&parms, &eo, sp.gen)) throw std::runtime_error(std::string("fixture: bad genkey spec ") + sp.name);
-    gcry_error_t e = gcry_pk_genkey(&k, parms); gcry_sexp_release(parms);
-    if (e) throw std::runtime_error(std::string("fixture: gcry_pk_genkey failed for ") + sp.name + ": " + gcry_strerror(e));
+    for (int tries = 0;; tries++) {
+      gcry_error_t e = gcry_pk_genkey(&k, parms);
+      if (e) throw std::runtime_error(std::string("fixture: gcry_pk_genkey failed for ") + sp.name + ": " + gcry_strerror(e));
+      if (std::string(sp.curve) != "Ed25519" && std::string(sp.curve) != "Curve25519") break;
+      gcry_sexp_t prv = gcry_sexp_find_token(k, "private-key", 0); Oct q = opaque_param(prv, "q"), d = opaque_param(prv, "d"); gcry_sexp_release(prv);
+      if (!q.empty() && !d.empty() && q[0] != 0 && d[0] != 0 && (q.size() == 32 || q.size() == 33) && d.size() == 32) break; // native encodings survive the MPI round trip
+      gcry_sexp_release(k); k = nullptr; if (tries > 50) throw std::runtime_error("fixture: cannot make a plain ECC key");
+    }
+    gcry_sexp_release(parms);
     size_t n = gcry_sexp_sprint(k, GCRYSEXP_FMT_ADVANCED, NULL, 0); std::string s(n, '\0'); gcry_sexp_sprint(k, GCRYSEXP_FMT_ADVANCED, &s[0], n);
     while (!s.empty() && s.back() == '\0') s.pop_back(); gcry_sexp_release(k); return s; });
   Key *K = new Key(); K->name = sp.name; K->algo = sp.algo; K->curve = sp.curve;
@@ -109,7 +117,7 @@ static Key *load_key(const KeySpec &sp) {
     for (size_t i = 0; i < cnt; i++) dst.push_back(v[i]);
   };
   switch (sp.algo) {
-    case TMCG_OPENPGP_PKALGO_RSA: case TMCG_OPENPGP_PKALGO_RSA_ENCRYPT_ONLY: ext("ne", K->m, 2); ext("dpqu", K->sec, 4); K->can_sign = sp.algo == TMCG_OPENPGP_PKALGO_RSA; break;
+    case TMCG_OPENPGP_PKALGO_RSA: case TMCG_OPENPGP_PKALGO_RSA_ENCRYPT_ONLY: ext("ne", K->m, 2); ext("dpqu", K->sec, 4); K->can_sign = K->name != "rsa2048e"; break;
     case TMCG_OPENPGP_PKALGO_DSA: ext("pqgy", K->m, 4); ext("x", K->sec, 1); K->qbits = gcry_mpi_get_nbits(K->m[1]); K->can_sign = true; break;
     case TMCG_OPENPGP_PKALGO_ELGAMAL: ext("pgy", K->m, 3); ext("x", K->sec, 1); break;
     default: {
@@ -126,7 +134,12 @@ static Key *load_key(const KeySpec &sp) {
   }
   return K;
 }
-static std::vector<Key *> &keys() { static std::vector<Key *> v; if (v.empty()) for (size_t i = 0; i < NKEYS; i++) v.push_back(load_key(KEYSPECS[i])); return v; }
+static std::vector<Key *> &keys() {
+  static std::vector<Key *> v;
+  if (v.empty()) for (size_t i = 0; i < NKEYS; i++) { Key *k = load_key(KEYSPECS[i]);
+    k->verify_ms = k->algo == TMCG_OPENPGP_PKALGO_DSA ? (k->qbits > 200 ? 7.5 : 2.5) : k->curve == "NIST P-256" ? 23 : k->curve == "NIST P-384" ? 80 : 0.7; v.push_back(k); }
+  return v;
+}
 static Key &key_named(const std::string &n) { for (auto k : keys()) if (k->name == n) return *k; throw std::runtime_error("no key " + n); }
 static std::vector<Key *> signing_keys() { std::vector<Key *> v; for (auto k : keys()) if (k->can_sign) v.push_back(k); return v; }
 static const char *algo_name(int a) {
@@ -173,14 +186,17 @@ static bool split_packets(const Oct &in, std::vector<Span> &out) {
   }
   return true;
 }
-enum Region { R_FRAMING, R_VERSION, R_TYPE, R_PKALGO, R_HASHALGO, R_HLEN, R_HASHED, R_ULEN, R_UNHASHED, R_LEFT16, R_MPIBITS, R_MPIVAL, R_KEYBODY, R_UIDBODY, R_ESKFIELD, R_CIPHERTEXT, R_AEADHDR, R_OTHER };
+enum Region { R_FRAMING, R_VERSION, R_TYPE, R_PKALGO, R_HASHALGO, R_HLEN, R_HASHED, R_ULEN, R_UNHASHED, R_LEFT16, R_MPIBITS, R_MPIVAL, R_KEYMATERIAL, R_KEYMETA, R_UIDBODY, R_ESKFIELD, R_CIPHERTEXT, R_AEADHDR, R_OTHER };
 static const char *region_name(Region r) {
-  static const char *n[] = {"framing", "version", "type", "pkalgo", "hashalgo", "hashed-length", "hashed-area", "unhashed-length", "unhashed-area", "left16", "mpi-bitcount", "signature-value", "key-body", "userid-body", "esk-field", "ciphertext", "aead-header", "other"};
+  static const char *n[] = {"framing", "version", "type", "pkalgo", "hashalgo", "hashed-length", "hashed-area", "unhashed-length", "unhashed-area", "left16", "mpi-bitcount", "signature-value", "key-material", "key-metadata", "userid-body", "esk-field", "ciphertext", "aead-header", "other"};
   return n[r];
 }
 // protected by the signature / integrity mechanism => a flip there must be refused
-static bool region_protected(Region r) {
-  switch (r) { case R_VERSION: case R_TYPE: case R_PKALGO: case R_HASHALGO: case R_HLEN: case R_HASHED: case R_LEFT16: case R_MPIVAL: case R_KEYBODY: case R_UIDBODY: case R_CIPHERTEXT: case R_AEADHDR: return true; default: return false; }
+// (key-metadata = version, creation time, algorithm, MPI bit counts, EC point format octet, KDF parameters: covered only where the
+//  whole key packet body is hashed, i.e. in certifications and bindings, not for document signatures)
+static bool region_protected(Region r, bool key_body_hashed = false) {
+  switch (r) { case R_VERSION: case R_TYPE: case R_PKALGO: case R_HASHALGO: case R_HLEN: case R_HASHED: case R_LEFT16: case R_MPIVAL: case R_KEYMATERIAL: case R_UIDBODY: case R_CIPHERTEXT: case R_AEADHDR: return true;
+    case R_KEYMETA: return key_body_hashed; default: return false; }
 }
 // region of byte `pos` (offset in the stream) inside a v4/v5 signature packet spanning `s`
 static Region sig_region(const Oct &in, const Span &s, size_t pos) {
@@ -194,7 +210,25 @@ static Region sig_region(const Oct &in, const Span &s, size_t pos) {
   return R_OTHER;
 }
 
+// region of byte `pos` inside a v4 public (sub)key packet
+static Region key_region(const Oct &in, const Span &s, size_t pos) {
+  if (pos < s.off + s.hdr) return R_FRAMING;
+  size_t b = pos - s.off - s.hdr; const unsigned char *p = in.data() + s.off + s.hdr; if (b < 6 || s.body < 6) return R_KEYMETA;
+  int algo = p[5]; size_t m = 6;
+  if (algo == 18 || algo == 19 || algo == 22) {
+    size_t ol = p[6]; if (b == 6) return R_KEYMATERIAL; if (b < 7 + ol) return R_KEYMATERIAL; m = 7 + ol;
+    if (m + 2 > s.body) return R_KEYMETA; size_t bits = ((size_t)p[m] << 8) | p[m + 1], len = (bits + 7) / 8;
+    if (b < m + 2) return R_KEYMETA; if (b == m + 2) return R_KEYMETA; /* point format octet */ if (b < m + 2 + len) return R_KEYMATERIAL; return R_KEYMETA; /* KDF parameters */
+  }
+  while (m + 2 <= s.body) { size_t bits = ((size_t)p[m] << 8) | p[m + 1], len = (bits + 7) / 8; if (b < m + 2) return R_KEYMETA; if (b < m + 2 + len) return R_KEYMATERIAL; m += 2 + len; }
+  return R_KEYMETA;
+}
+
 // =========================================================================== forked evaluation of parser-facing faults
+// A sanitizer report costs seconds (symbolizer); inside a fault child only the fact of the death matters.
+static volatile int g_in_child = 0;
+extern "C" void __asan_on_error() { if (g_in_child) _exit(86); }
+extern "C" void __ubsan_on_report() { if (g_in_child) _exit(87); }
 static std::string handoff_dir() {
   static std::string d;
   if (d.empty()) {
@@ -219,12 +253,17 @@ static std::vector<unsigned char> run_forked(Ctx &ctx, size_t n, const std::func
     fflush(stdout); fflush(stderr);
     pid_t pid = fork(); if (pid < 0) throw std::runtime_error("fork failed");
     if (pid == 0) {
-      close(pfd[0]); signal(SIGALRM, SIG_DFL);
+      close(pfd[0]); g_in_child = 1;
+      { int sg[] = {SIGALRM, SIGSEGV, SIGBUS, SIGFPE, SIGILL, SIGABRT, SIGTRAP}; for (int x : sg) signal(x, SIG_DFL); }
       for (size_t i = start; i < n; i++) {
         alarm(20); unsigned char r = 0; PGP::MemoryGuardReset();
+        struct timespec t0, t1; clock_gettime(CLOCK_MONOTONIC, &t0);
         try { r = eval(i); } catch (...) { r = 0; } // an exception out of a parser is a refusal
+        clock_gettime(CLOCK_MONOTONIC, &t1); double dt = (t1.tv_sec - t0.tv_sec) + 1e-9 * (t1.tv_nsec - t0.tv_nsec);
+        if (dt > 0.1 && getenv("C20_DEBUG")) { FILE *f = fopen(getenv("C20_DEBUG"), "a"); if (f) { fprintf(f, "slow %s fault %zu: %.2fs input=%s\n", what, i, dt, hexs(input(i), 60).c_str()); fclose(f); } }
         alarm(0); if (write(pfd[1], &r, 1) != 1) _exit(3);
       }
+      if (getenv("C20_DEBUG")) { struct rusage ru; getrusage(RUSAGE_SELF, &ru); FILE *f = fopen(getenv("C20_DEBUG"), "a"); if (f) { fprintf(f, "child %s faults=%zu user=%.3f sys=%.3f minflt=%ld\n", what, n - start, ru.ru_utime.tv_sec + 1e-6 * ru.ru_utime.tv_usec, ru.ru_stime.tv_sec + 1e-6 * ru.ru_stime.tv_usec, ru.ru_minflt); fclose(f); } }
       _exit(0);
     }
     close(pfd[1]); size_t got = 0; unsigned char buf[4096]; ssize_t k;
@@ -233,7 +272,9 @@ static std::vector<unsigned char> run_forked(Ctx &ctx, size_t n, const std::func
     if (start + got < n) {
       bool timeout = WIFSIGNALED(status) && WTERMSIG(status) == SIGALRM;
       res[start + got] = timeout ? F_TIMEOUT : F_CRASHED; ctx.count(timeout ? "child_timeout" : "child_crashed");
-      handoff(input(start + got), what); start += got + 1;
+      handoff(input(start + got), what);
+      if (getenv("C20_DEBUG")) { FILE *f = fopen(getenv("C20_DEBUG"), "a"); if (f) { fprintf(f, "%s fault %zu of %zu status=%x (%s %d) %s\n", what, start + got, n, status, WIFSIGNALED(status) ? "signal" : "exit", WIFSIGNALED(status) ? WTERMSIG(status) : WEXITSTATUS(status), ctx.desc.str().c_str()); fclose(f); } }
+      start += got + 1;
       if (++restarts > 400) throw std::runtime_error("too many child restarts");
     } else start = n;
   }
@@ -332,8 +373,21 @@ static Oct my_doc_hash_v4(int h, bool text, const Oct &data, const Oct &trailer)
 }
 static TMCG_OpenPGP_Signature *parse_sig(const Oct &pkt) { TMCG_OpenPGP_Signature *s = nullptr; if (!PGP::SignatureParse(pkt, 0, s)) return nullptr; return s; }
 
+// of the planned flips whose position is `expensive` (a full public-key operation will run) keep about `keep`
+static void thin(FlipPlan &P, const std::function<bool(size_t)> &expensive, size_t keep, uint64_t seed) {
+  std::vector<size_t> idx; for (size_t i = 0; i < P.pos.size(); i++) if (expensive(P.pos[i])) idx.push_back(i);
+  if (idx.size() <= keep || keep < 2) return;
+  std::set<size_t> all(idx.begin(), idx.end()), kp; kp.insert(idx.front()); kp.insert(idx.back());
+  for (size_t j = 0; kp.size() < keep; j++) kp.insert(idx[(size_t)(mix64(seed ^ mix64(j + 4242)) % idx.size())]);
+  FlipPlan Q; for (size_t i = 0; i < P.pos.size(); i++) if (!all.count(i) || kp.count(i)) { Q.pos.push_back(P.pos[i]); Q.mask.push_back(P.mask[i]); }
+  P = Q;
+}
+static size_t pk_budget(Ctx &ctx, const Key &k, double ms) { double n = (ctx.thorough ? 2.5 * ms : ms) / k.verify_ms; return (size_t)std::max(8.0, std::min(4000.0, n)); }
+static std::string at(size_t pos, unsigned char mask, Region r) { char b[96]; snprintf(b, sizeof b, "offset %zu xor 0x%02x (%s)", pos, mask, region_name(r)); return b; }
+static bool write_file(const std::string &p, const Oct &d) { std::ofstream f(p, std::ios::binary); if (!f) return false; f.write((const char *)d.data(), d.size()); return (bool)f; }
+
 // =========================================================================== (1) document signatures
-VF_SUB(sig_document_roundtrip_and_flips, 240, 9000) {
+VF_SUB(sig_document_roundtrip_and_flips, 220, 9000) {
   PGP::MemoryGuardReset();
   std::vector<Key *> sk = signing_keys(); Key &k = *sk[ctx.c.index(sk.size())];
   tmcg_openpgp_hashalgo_t h = pick_hash(ctx, k, true);
@@ -346,13 +400,12 @@ VF_SUB(sig_document_roundtrip_and_flips, 240, 9000) {
   std::string policy = ctx.c.prob(1, 4) ? "https://example.invalid/policy/" + std::to_string(ctx.c.range(0, 999)) : "";
   Oct pubpkt = key_packet(k, keytime, false), pubbody = body_of(pubpkt), fpr, kid; PGP::FingerprintCompute(pubbody, fpr); PGP::KeyidCompute(pubbody, kid);
   bool issuer_fpr = version == 5 || ctx.c.coin(); Oct issuer = issuer_fpr ? fpr : kid;
-  std::ostringstream d; d << k.name << " " << hash_name(h) << " v" << version << (text ? " text" : " binary") << " doc=" << lcls << "(" << data.size() << ")" << (exptime ? " expiring" : "") << (policy.empty() ? "" : " policy") << (issuer_fpr ? " issuer=fpr" : " issuer=keyid");
+  std::ostringstream d; d << k.name << " " << hash_name(h) << " v" << version << (text ? " text" : " binary") << " doc=" << lcls << "(" << data.size() << ")" << (lone_cr ? " lone-CR" : "") << (exptime ? " expiring" : "") << (policy.empty() ? "" : " policy") << (issuer_fpr ? " issuer=fpr" : " issuer=keyid");
   ctx.desc << d.str();
   ctx.label(std::string("algo:") + algo_name(k.algo)); ctx.label(std::string("hash:") + hash_name(h)); ctx.label(text ? "type:text" : "type:binary"); ctx.label("v" + std::to_string(version)); ctx.label("doc:" + lcls);
   const std::string A = algo_name(k.algo);
 
-  // own fingerprint / key ID
-  { Oct f = my_fingerprint(pubbody); Oct id(f.end() - 8, f.end());
+  { Oct f = my_fingerprint(pubbody); Oct id(f.end() - 8, f.end()); // own fingerprint / key ID
     if (f != fpr) ctx.fail("keyid/fingerprint-differs-from-rfc4880", "FingerprintCompute " + hexs(fpr, 40) + " != SHA1(0x99||len||body) " + hexs(f, 40) + " for " + k.name);
     if (id != kid) ctx.fail("keyid/keyid-differs-from-rfc4880", "KeyidCompute " + hexs(kid) + " != " + hexs(id)); }
 
@@ -377,9 +430,9 @@ VF_SUB(sig_document_roundtrip_and_flips, 240, 9000) {
   { bool cv = sig->CheckValidity(keytime, 0);
     if (is_strong(h) && !cv) ctx.fail("validity/fresh-strong-signature-refused", "CheckValidity refused a fresh signature: " + d.str());
     if (is_weak(h) && cv) ctx.fail("validity/weak-hash-accepted", "CheckValidity accepted " + std::string(hash_name(h)) + ": " + d.str()); }
-  if (ctx.c.prob(1, 6)) { // file based entry point
+  if (ctx.c.prob(1, 6) && !lone_cr) { // file based entry point (texts with a lone CR: see sig_text_file_vs_memory)
     char tmpl[] = "/tmp/c20doc-XXXXXX"; int fd = mkstemp(tmpl);
-    if (fd >= 0) { size_t w = 0; while (w < data.size()) { ssize_t r = write(fd, data.data() + w, data.size() - w); if (r <= 0) break; w += (size_t)r; } close(fd);
+    if (fd >= 0) { close(fd); write_file(tmpl, data);
       bool ok = sig->Verify(vkey, std::string(tmpl), 0); unlink(tmpl); ctx.label("file-entry-point");
       if (!ok) ctx.fail("sig/" + A + "/untouched-signature-refused-from-file", d.str()); }
   }
@@ -395,6 +448,7 @@ VF_SUB(sig_document_roundtrip_and_flips, 240, 9000) {
   {
     std::vector<Span> sp; if (!split_packets(S.pkt, sp) || sp.size() != 1 || sp[0].tag != 2) { ctx.fail("sig/" + A + "/packet-framing-unexpected", hexs(S.pkt, 40)); return; }
     FlipPlan P = plan_flips(ctx, S.pkt.size(), ctx.thorough ? 1200 : 600);
+    thin(P, [&](size_t pos) { Region r = sig_region(S.pkt, sp[0], pos); return r == R_MPIVAL || r == R_MPIBITS || r == R_UNHASHED || r == R_ULEN; }, pk_budget(ctx, k, 1500), ctx.c.raw64());
     auto mutated = [&](size_t i) { Oct m = S.pkt; m[P.pos[i]] ^= P.mask[i]; return m; };
     auto res = run_forked(ctx, P.pos.size(), [&](size_t i) -> unsigned char {
       Oct m = mutated(i); TMCG_OpenPGP_Signature *s = nullptr; if (!PGP::SignatureParse(m, 0, s)) return 0;
@@ -402,8 +456,7 @@ VF_SUB(sig_document_roundtrip_and_flips, 240, 9000) {
     for (size_t i = 0; i < res.size(); i++) {
       Region r = sig_region(S.pkt, sp[0], P.pos[i]); faults++;
       if (res[i] == 1) {
-        if (region_protected(r)) { char b[96]; snprintf(b, sizeof b, " offset %zu xor 0x%02x", P.pos[i], P.mask[i]);
-          if (!ctx.fail("sig/" + A + "/flipped-" + region_name(r) + "-accepted", "signature packet with one flipped byte verified:" + std::string(b) + " (" + region_name(r) + ") " + d.str() + " sig=" + hexs(S.pkt, 700))) break; }
+        if (region_protected(r)) { if (!ctx.fail("sig/" + A + "/flipped-" + region_name(r) + "-accepted", "signature packet with one flipped byte verified: " + at(P.pos[i], P.mask[i], r) + " " + d.str() + " sig=" + hexs(S.pkt, 700))) break; }
         else ctx.count(std::string("accepted_unprotected:") + region_name(r));
       }
     }
@@ -416,27 +469,286 @@ VF_SUB(sig_document_roundtrip_and_flips, 240, 9000) {
       Oct m = data; unsigned char &b = m[P.pos[i]]; unsigned char nv = b ^ P.mask[i];
       if (text) { if (b == '\r' || b == '\n') continue; if (nv == '\r' || nv == '\n') nv = b ^ 0x40; if (nv == '\r' || nv == '\n') continue; }
       b = nv; n++;
-      if (sig->VerifyData(vkey, m, 0)) { char bb[64]; snprintf(bb, sizeof bb, "offset %zu", P.pos[i]); ctx.fail("sig/" + A + "/flipped-document-accepted", std::string(bb) + " " + d.str()); break; }
+      if (sig->VerifyData(vkey, m, 0)) { ctx.fail("sig/" + A + "/flipped-document-accepted", "document offset " + std::to_string(P.pos[i]) + " " + d.str()); break; }
     }
     { Oct m = data; m.push_back('x'); n++; if (sig->VerifyData(vkey, m, 0)) ctx.fail("sig/" + A + "/extended-document-accepted", d.str()); }
     if (!data.empty()) { Oct m(data.begin(), data.end() - 1); bool equiv = text && to_crlf(m) == to_crlf(data); n++; if (!equiv && sig->VerifyData(vkey, m, 0)) ctx.fail("sig/" + A + "/truncated-document-accepted", d.str()); }
     faults += (int64_t)n; ctx.count("document_faults", (int64_t)n);
   }
-  // ---- negative C: the key material (library key object rebuilt from altered parameters; in-process)
+  // ---- negative C: the key packet (forked: parser, and libgcrypt is not robust against malformed key parameters)
   if (!ctx.failed) {
-    size_t n = 0; uint64_t seed = ctx.c.raw64(); size_t per = ctx.thorough ? 48 : 16;
-    for (size_t mi = 0; mi < k.m.size() && !ctx.failed; mi++) {
-      Oct vb = mpi_bytes(k.m[mi]); std::set<size_t> pos; pos.insert(0); pos.insert(vb.size() - 1);
-      for (size_t j = 0; pos.size() < std::min(per, vb.size()); j++) pos.insert((size_t)(mix64(seed ^ mix64(mi * 1000 + j)) % vb.size()));
-      for (size_t p : pos) {
-        Oct mb = vb; mb[p] ^= flip_mask(seed, p + mi * 4096, 0); std::vector<gcry_mpi_t> mp = k.m; gcry_mpi_t alt = mpi_from_bytes(mb); mp[mi] = alt;
-        std::unique_ptr<TMCG_OpenPGP_Pubkey> ko(pubkey_object(k, keytime, pubpkt, &mp)); n++;
-        bool acc = ko->Good() && sig->VerifyData(ko->key, data, 0); gcry_mpi_release(alt);
-        if (acc) { char bb[96]; snprintf(bb, sizeof bb, "parameter #%zu byte %zu", mi, p); ctx.fail("sig/" + A + "/flipped-key-accepted", std::string(bb) + " " + d.str()); break; }
+    std::vector<Span> sp; if (!split_packets(pubpkt, sp) || sp.size() != 1 || sp[0].tag != 6) { ctx.fail("key/" + A + "/packet-framing-unexpected", hexs(pubpkt, 40)); return; }
+    FlipPlan P = plan_flips(ctx, pubpkt.size(), 100000);
+    thin(P, [&](size_t) { return true; }, std::min<size_t>(pk_budget(ctx, k, 700), ctx.thorough ? 600 : 300), ctx.c.raw64());
+    auto mutated = [&](size_t i) { Oct m = pubpkt; m[P.pos[i]] ^= P.mask[i]; return m; };
+    auto res = run_forked(ctx, P.pos.size(), [&](size_t i) -> unsigned char {
+      Oct m = mutated(i); TMCG_OpenPGP_Pubkey *pk = nullptr; if (!PGP::PublicKeyBlockParse(m, 0, pk)) return 0;
+      bool ok = pk->Good() && sig->VerifyData(pk->key, data, 0); delete pk; return ok ? 1 : 0; }, mutated, "key");
+    for (size_t i = 0; i < res.size(); i++) {
+      Region r = key_region(pubpkt, sp[0], P.pos[i]); faults++;
+      if (res[i] == 1) {
+        if (region_protected(r, false)) { if (!ctx.fail("sig/" + A + "/flipped-key-accepted", "signature verified with an altered key: " + at(P.pos[i], P.mask[i], r) + " " + d.str() + " key=" + hexs(pubpkt, 700))) break; }
+        else ctx.count(std::string("accepted_unprotected:") + region_name(r));
       }
     }
-    for (auto o : sk) if (o != &k && o->algo == k.algo) { n++; if (sig->VerifyData(o->pub, data, 0)) ctx.fail("sig/" + A + "/other-key-accepted", d.str() + " verified with " + o->name); }
-    faults += (int64_t)n; ctx.count("key_faults", (int64_t)n);
+    size_t n = res.size();
+    for (auto o : sk) if (o != &k && o->algo == k.algo) { n++; faults++; if (sig->VerifyData(o->pub, data, 0)) ctx.fail("sig/" + A + "/other-key-accepted", d.str() + " verified with " + o->name); }
+    ctx.count("key_faults", (int64_t)n);
   }
   ctx.count("faults_injected", faults);
+}
+
+// texts whose line-ending forms the two entry points may treat differently (lone CR): the same signature over the same bytes must get
+// the same verdict from VerifyData (memory) and Verify (file)
+VF_SUB(sig_text_file_vs_memory, 60, 2000) {
+  PGP::MemoryGuardReset();
+  Key &k = key_named(ctx.c.coin() ? "rsa2048a" : "eddsa-a"); tmcg_openpgp_hashalgo_t h = TMCG_OPENPGP_HASHALGO_SHA256;
+  bool lone_cr = false; Oct data = gen_text_doc(ctx, (size_t)ctx.c.range(1, 300), lone_cr);
+  switch (ctx.c.weighted({3, 1, 1, 1})) { case 1: data.push_back('\r'); break; case 2: { Oct x = {'a', '\r', '\r', '\n', 'b'}; app(data, x); break; } case 3: { Oct x = {'a', '\r', 'b', '\n'}; app(data, x); break; } default: break; }
+  lone_cr = false; for (size_t j = 0; j < data.size(); j++) if (data[j] == '\r' && (j + 1 >= data.size() || data[j + 1] != '\n')) lone_cr = true;
+  time_t t = vtime(); Oct pubpkt = key_packet(k, t, false), kid; PGP::KeyidCompute(body_of(pubpkt), kid);
+  bool sign_from_file = ctx.c.coin();
+  char tmpl[] = "/tmp/c20txt-XXXXXX"; int fd = mkstemp(tmpl); if (fd < 0) { ctx.discard(); return; } close(fd); write_file(tmpl, data);
+  Oct trailer, hash, left; PGP::PacketSigPrepareDetachedSignature(TMCG_OPENPGP_SIGNATURE_CANONICAL_TEXT_DOCUMENT, k.algo, h, t, 0, "", kid, trailer);
+  bool hr = sign_from_file ? PGP::TextDocumentHash(std::string(tmpl), trailer, h, hash, left) : PGP::TextDocumentHash(data, trailer, h, hash, left);
+  ctx.desc << k.name << " text(" << data.size() << ")" << (lone_cr ? " lone-CR" : "") << (sign_from_file ? " hashed-from-file" : " hashed-from-memory") << " doc=" << hexs(data, 48);
+  ctx.label(lone_cr ? "lone-CR" : "no-lone-CR"); ctx.label(sign_from_file ? "hashed-from-file" : "hashed-from-memory"); ctx.nontrivial(hkey(data) + (sign_from_file ? "f" : "m"));
+  if (!hr) { unlink(tmpl); ctx.fail("sig/text/hash-function-failed", ctx.desc.str()); return; }
+  Mpis m; if (lib_sign(k, hash, h, m)) { unlink(tmpl); ctx.fail("sig/text/library-cannot-sign", ctx.desc.str()); return; }
+  Oct pkt = sig_packet(k, trailer, left, m); std::unique_ptr<TMCG_OpenPGP_Signature> sig(parse_sig(pkt));
+  if (!sig) { unlink(tmpl); ctx.fail("sig/text/own-signature-unparsable", ctx.desc.str()); return; }
+  bool vm = sig->VerifyData(k.pub, data, 0), vf_ = sig->Verify(k.pub, std::string(tmpl), 0); unlink(tmpl);
+  if (!(sign_from_file ? vf_ : vm)) ctx.fail("sig/text/untouched-signature-refused-by-same-entry-point", ctx.desc.str());
+  if (vm != vf_) ctx.fail(lone_cr ? "sig/text/lone-cr-file-and-memory-verdicts-differ" : "sig/text/file-and-memory-verdicts-differ",
+    std::string("the same type 0x01 signature over the same bytes: VerifyData(memory)=") + (vm ? "true" : "false") + " Verify(file)=" + (vf_ ? "true" : "false") + "; " + ctx.desc.str());
+}
+
+// =========================================================================== key blocks: certifications, bindings, direct-key signatures
+struct BlockSpec {
+  Key *prim = nullptr, *sub = nullptr, *certifier = nullptr; std::string uid; tmcg_openpgp_signature_t certtype = TMCG_OPENPGP_SIGNATURE_POSITIVE_CERTIFICATION;
+  tmcg_openpgp_hashalgo_t h_uid = TMCG_OPENPGP_HASHALGO_SHA256, h_sub = TMCG_OPENPGP_HASHALGO_SHA256, h_dir = TMCG_OPENPGP_HASHALGO_SHA256, h_cert = TMCG_OPENPGP_HASHALGO_SHA256;
+  time_t keytime = 0, uidsigtime = 0, subtime = 0, subsigtime = 0, dirsigtime = 0, certsigtime = 0, keyexp = 0, certexp = 0; bool direct = false, bis = true, issuer_fpr = true;
+};
+struct Block { Oct pub, pubbody, fpr, kid, uidpkt, uidsig, dirsig, certsig, sub, subbody, subsig, all; std::vector<Span> spans; std::vector<std::string> role; std::string err; bool ok = false; std::vector<std::string> oracle_diffs; };
+static Oct key_hash_prefix(const Oct &body) { Oct in; in.push_back(0x99); in.push_back(body.size() >> 8); in.push_back(body.size()); app(in, body); return in; }
+static Oct v4_finish(int h, Oct in, const Oct &trailer) { app(in, trailer); in.push_back(0x04); in.push_back(0xFF); put32(in, (uint32_t)trailer.size()); return H(h, in); }
+static bool sign_into(const Key &k, const Oct &trailer, const Oct &hash, const Oct &left, tmcg_openpgp_hashalgo_t h, Oct &pkt, std::string &err) {
+  Mpis m; gcry_error_t e = lib_sign(k, hash, h, m); if (e) { err = std::string("sign: ") + gcry_strerror(e); return false; } pkt = sig_packet(k, trailer, left, m); return true;
+}
+static Block build_block(const BlockSpec &sp) {
+  Block B; const Key &P = *sp.prim; Oct empty;
+  B.pub = key_packet(P, sp.keytime, false); B.pubbody = body_of(B.pub); PGP::FingerprintCompute(B.pubbody, B.fpr); PGP::KeyidCompute(B.pubbody, B.kid);
+  Oct issuer = sp.issuer_fpr ? B.fpr : B.kid, pubflags, subflags; pubflags.push_back(0x03); subflags.push_back(0x0C);
+  auto add = [&](const Oct &pkt, const char *role) { app(B.all, pkt); B.role.push_back(role); };
+  add(B.pub, "pub");
+  if (sp.direct) {
+    Oct tr, hash, left; PGP::PacketSigPrepareDesignatedRevoker(P.algo, sp.h_dir, sp.dirsigtime, pubflags, issuer, P.algo, empty, sp.bis, tr);
+    PGP::KeyHash(B.pubbody, tr, sp.h_dir, hash, left);
+    if (hash != v4_finish(sp.h_dir, key_hash_prefix(B.pubbody), tr)) B.oracle_diffs.push_back("direct-key");
+    if (!sign_into(P, tr, hash, left, sp.h_dir, B.dirsig, B.err)) return B; add(B.dirsig, "dirsig");
+  }
+  PGP::PacketUidEncode(sp.uid, B.uidpkt); add(B.uidpkt, "uid");
+  {
+    Oct tr, hash, left; PGP::PacketSigPrepareSelfSignature(sp.certtype, P.algo, sp.h_uid, sp.uidsigtime, sp.keyexp, pubflags, issuer, sp.bis, tr);
+    PGP::CertificationHash(B.pubbody, sp.uid, empty, tr, sp.h_uid, hash, left);
+    Oct in = key_hash_prefix(B.pubbody); in.push_back(0xB4); put32(in, (uint32_t)sp.uid.size()); for (char ch : sp.uid) in.push_back((unsigned char)ch);
+    if (hash != v4_finish(sp.h_uid, in, tr)) B.oracle_diffs.push_back("certification");
+    if (!sign_into(P, tr, hash, left, sp.h_uid, B.uidsig, B.err)) return B; add(B.uidsig, "uidsig");
+  }
+  if (sp.certifier) {
+    const Key &C = *sp.certifier; Oct cpub = key_packet(C, sp.keytime, false), cfpr, tr, hash, left; PGP::FingerprintCompute(body_of(cpub), cfpr);
+    PGP::PacketSigPrepareCertificationSignature(TMCG_OPENPGP_SIGNATURE_GENERIC_CERTIFICATION, C.algo, sp.h_cert, sp.certsigtime, sp.certexp, "", cfpr, tr);
+    PGP::CertificationHash(B.pubbody, sp.uid, empty, tr, sp.h_cert, hash, left);
+    if (!sign_into(C, tr, hash, left, sp.h_cert, B.certsig, B.err)) return B; add(B.certsig, "certsig");
+  }
+  if (sp.sub) {
+    B.sub = key_packet(*sp.sub, sp.subtime, true); B.subbody = body_of(B.sub); add(B.sub, "sub");
+    Oct tr, hash, left; PGP::PacketSigPrepareSelfSignature(TMCG_OPENPGP_SIGNATURE_SUBKEY_BINDING, P.algo, sp.h_sub, sp.subsigtime, 0, subflags, issuer, sp.bis, tr);
+    PGP::KeyHash(B.pubbody, B.subbody, tr, sp.h_sub, hash, left);
+    if (hash != v4_finish(sp.h_sub, cat(key_hash_prefix(B.pubbody), key_hash_prefix(B.subbody)), tr)) B.oracle_diffs.push_back("subkey-binding");
+    if (!sign_into(P, tr, hash, left, sp.h_sub, B.subsig, B.err)) return B; add(B.subsig, "subsig");
+  }
+  if (!split_packets(B.all, B.spans) || B.spans.size() != B.role.size()) { B.err = "own splitter disagrees with the library's packet framing"; return B; }
+  B.ok = true; return B;
+}
+// verdict bits of the object-level checks on a (possibly altered) key block
+enum { V_KEY = 1, V_UID = 2, V_SUB = 4, V_DIRECT = 8, V_CERT = 16, V_PARSED = 32 };
+static unsigned char eval_block(const Oct &bytes, gcry_sexp_t certifier_key) {
+  TMCG_OpenPGP_Pubkey *pub = nullptr; if (!PGP::PublicKeyBlockParse(bytes, 0, pub)) return 0;
+  unsigned char v = V_PARSED; TMCG_OpenPGP_Keyring *ring = new TMCG_OpenPGP_Keyring();
+  if (pub->CheckSelfSignatures(ring, 0)) v |= V_KEY;
+  if (pub->userids.size() > 0 && pub->userids[0]->valid) v |= V_UID;
+  pub->CheckSubkeys(ring, 0); if (pub->subkeys.size() > 0 && pub->subkeys[0]->valid) v |= V_SUB;
+  for (auto s : pub->selfsigs) if (s->valid) v |= V_DIRECT;
+  if (certifier_key && pub->userids.size() > 0) for (auto s : pub->userids[0]->certsigs) if (s->Verify(certifier_key, pub->pub_hashing, pub->userids[0]->userid, 0)) v |= V_CERT;
+  delete ring; delete pub; return v;
+}
+static std::string verdict_str(unsigned v) { std::string s; if (v & V_PARSED) s += "parsed "; if (v & V_KEY) s += "key-valid "; if (v & V_UID) s += "uid-valid "; if (v & V_SUB) s += "subkey-valid "; if (v & V_DIRECT) s += "direct-sig-valid "; if (v & V_CERT) s += "certification-valid "; return s.empty() ? "refused" : s; }
+static std::string gen_uid(Ctx &ctx) {
+  size_t n = (size_t)ctx.c.range(1, 40); uint64_t seed = ctx.c.raw64(); std::string u;
+  for (size_t i = 0; i < n; i++) u += (char)(0x20 + mix64(seed ^ mix64(i + 5)) % 95);
+  return u;
+}
+
+VF_SUB(sig_certification_and_key_signatures, 150, 6000) {
+  PGP::MemoryGuardReset();
+  std::vector<Key *> sk = signing_keys(); BlockSpec sp; sp.prim = sk[ctx.c.index(sk.size())]; Key &P = *sp.prim;
+  static const char *subs[] = {"", "elg2048", "rsa2048e", "ecdh25519", "ecdh256"}; std::string sn = subs[ctx.c.weighted({2, 2, 2, 3, 2})]; if (!sn.empty()) sp.sub = &key_named(sn);
+  sp.uid = gen_uid(ctx); sp.certtype = (tmcg_openpgp_signature_t)(0x10 + ctx.c.index(4)); sp.direct = ctx.c.prob(1, 3); sp.bis = ctx.c.coin(); sp.issuer_fpr = ctx.c.coin();
+  auto strong = [&](const Key &k) { for (int t = 0; t < 20; t++) { int h = STRONG_HASHES[ctx.c.index(5)]; if (hash_fits_key(k, h)) return (tmcg_openpgp_hashalgo_t)h; } return TMCG_OPENPGP_HASHALGO_SHA512; };
+  sp.h_uid = strong(P); sp.h_sub = strong(P); sp.h_dir = strong(P);
+  if (ctx.c.prob(1, 3)) { std::vector<Key *> o; for (auto k : sk) if (k != &P && k->verify_ms < 30) o.push_back(k); sp.certifier = o[ctx.c.index(o.size())]; sp.h_cert = strong(*sp.certifier); sp.certexp = ctx.c.coin() ? 0 : 1000000; }
+  sp.keytime = vtime() - (time_t)ctx.c.range(100, 100000000); sp.subtime = sp.keytime + (time_t)ctx.c.range(0, 50); sp.uidsigtime = sp.keytime + (time_t)ctx.c.range(0, 50);
+  sp.subsigtime = sp.subtime + (time_t)ctx.c.range(0, 40); sp.dirsigtime = sp.keytime + (time_t)ctx.c.range(0, 50); sp.certsigtime = sp.keytime + (time_t)ctx.c.range(0, 90);
+  sp.keyexp = ctx.c.coin() ? 0 : (time_t)ctx.c.range(200000000, 400000000);
+  std::ostringstream d; d << P.name << " uid(" << sp.uid.size() << ") cert=0x" << std::hex << (int)sp.certtype << std::dec << " " << hash_name(sp.h_uid) << (sp.sub ? " sub=" + sp.sub->name + "/" + hash_name(sp.h_sub) : std::string(" no-subkey")) << (sp.direct ? std::string(" direct-key-sig/") + hash_name(sp.h_dir) : std::string(""))
+    << (sp.certifier ? " certified-by=" + sp.certifier->name : std::string("")) << (sp.keyexp ? " key-expires" : "") << (sp.bis ? " bis" : "") << (sp.issuer_fpr ? " issuer=fpr" : " issuer=keyid");
+  ctx.desc << d.str(); const std::string A = algo_name(P.algo);
+  ctx.label(std::string("primary:") + A); ctx.label("sub:" + (sp.sub ? std::string(algo_name(sp.sub->algo)) + (sp.sub->curve.empty() ? "" : "/" + sp.sub->curve) : std::string("none"))); ctx.label("cert:0x1" + std::to_string((int)sp.certtype - 0x10));
+  if (sp.direct) ctx.label("with-direct-key-signature"); if (sp.certifier) ctx.label("with-third-party-certification");
+  Block B = build_block(sp);
+  if (!B.ok) { ctx.fail("cert/" + A + "/library-cannot-build-block", B.err + " for " + d.str()); return; }
+  for (auto &w : B.oracle_diffs) ctx.fail("hash/" + w + "/differs-from-rfc4880", "the library's hash input for a " + w + " signature differs from RFC 4880 5.2.4: " + d.str());
+  ctx.nontrivial(d.str() + hkey(B.all));
+  std::unique_ptr<TMCG_OpenPGP_Pubkey> cko; gcry_sexp_t ckey = nullptr;
+  if (sp.certifier) { cko.reset(pubkey_object(*sp.certifier, sp.keytime, key_packet(*sp.certifier, sp.keytime, false))); ckey = cko->key; }
+  // ---- positive
+  unsigned want = V_PARSED | V_KEY | V_UID | (sp.sub ? V_SUB : 0) | (sp.direct ? V_DIRECT : 0) | (sp.certifier ? V_CERT : 0);
+  unsigned got = eval_block(B.all, ckey);
+  if ((got & want) != want) { ctx.fail("cert/" + A + "/untouched-block-refused", "expected {" + verdict_str(want) + "} got {" + verdict_str(got) + "} for " + d.str() + " block=" + hexs(B.all, 1500)); return; }
+  { TMCG_OpenPGP_Pubkey *pub = nullptr; // the direct object-level entry points on the parsed signatures
+    if (PGP::PublicKeyBlockParse(B.all, 0, pub)) {
+      if (pub->id != B.kid || pub->fingerprint != B.fpr) ctx.fail("keyid/parsed-key-id-differs", d.str());
+      if (pub->userids.size() == 1 && pub->userids[0]->selfsigs.size() == 1) {
+        TMCG_OpenPGP_Signature *s = pub->userids[0]->selfsigs[0];
+        if (!s->Verify(pub->key, pub->pub_hashing, sp.uid, 0)) ctx.fail("cert/" + A + "/untouched-certification-refused", d.str());
+        if (s->Verify(pub->key, pub->pub_hashing, sp.uid + "x", 0)) ctx.fail("cert/" + A + "/certification-verifies-for-other-userid", d.str());
+        if (sp.uid.size() > 1 && s->Verify(pub->key, pub->pub_hashing, sp.uid.substr(1), 0)) ctx.fail("cert/" + A + "/certification-verifies-for-other-userid", d.str());
+        if (sp.sub && s->Verify(pub->key, pub->pub_hashing, B.subbody, 0)) ctx.fail("cert/" + A + "/certification-verifies-as-binding", d.str());
+      } else ctx.fail("cert/" + A + "/parsed-structure-unexpected", d.str());
+      if (sp.sub && pub->subkeys.size() == 1 && pub->subkeys[0]->bindsigs.size() == 1) {
+        TMCG_OpenPGP_Signature *s = pub->subkeys[0]->bindsigs[0];
+        if (!s->Verify(pub->key, pub->pub_hashing, pub->subkeys[0]->sub_hashing, 0)) ctx.fail("cert/" + A + "/untouched-binding-refused", d.str());
+        if (s->Verify(pub->key, pub->subkeys[0]->sub_hashing, pub->pub_hashing, 0)) ctx.fail("cert/" + A + "/binding-verifies-with-swapped-keys", d.str());
+      }
+      delete pub;
+    }
+  }
+  if (ctx.failed) return;
+  // ---- negative: every byte of the block (sampled beyond the cap), forked
+  size_t cap = ctx.thorough ? 1500 : 600; FlipPlan Pl = plan_flips(ctx, B.all.size(), cap);
+  auto span_of = [&](size_t pos) { for (size_t j = 0; j < B.spans.size(); j++) if (pos >= B.spans[j].off && pos < B.spans[j].end()) return j; return (size_t)0; };
+  auto region_of = [&](size_t pos, size_t j) -> Region {
+    const std::string &r = B.role[j]; if (pos < B.spans[j].off + B.spans[j].hdr) return R_FRAMING;
+    if (r == "pub" || r == "sub") return key_region(B.all, B.spans[j], pos); if (r == "uid") return R_UIDBODY; return sig_region(B.all, B.spans[j], pos); };
+  // flips that leave a signature cryptographically checkable (signature values, unprotected fields) cost a public-key operation each
+  thin(Pl, [&](size_t pos) { size_t j = span_of(pos); Region r = region_of(pos, j); return r == R_MPIVAL || r == R_MPIBITS || r == R_ULEN || r == R_FRAMING; }, pk_budget(ctx, P, 1800), ctx.c.raw64());
+  auto mutated = [&](size_t i) { Oct m = B.all; m[Pl.pos[i]] ^= Pl.mask[i]; return m; };
+  auto res = run_forked(ctx, Pl.pos.size(), [&](size_t i) -> unsigned char { return eval_block(mutated(i), ckey); }, mutated, "keyblock");
+  for (size_t i = 0; i < res.size() && !ctx.failed; i++) {
+    if (res[i] >= 0xF0) continue; size_t j = span_of(Pl.pos[i]); Region r = region_of(Pl.pos[i], j); const std::string &role = B.role[j]; unsigned v = res[i];
+    unsigned forbidden = role == "pub" ? (V_KEY | V_UID | V_SUB | V_DIRECT) : role == "dirsig" ? V_DIRECT : (role == "uid" || role == "uidsig") ? V_UID : role == "certsig" ? V_CERT : V_SUB;
+    if (!region_protected(r, true)) { if (v & forbidden) ctx.count(std::string("accepted_unprotected:") + region_name(r)); continue; }
+    if (v & forbidden) ctx.fail("cert/" + A + "/flipped-" + role + "-" + region_name(r) + "-accepted", "key block with one flipped byte in the " + role + " packet still gives {" + verdict_str(v & forbidden) + "}: " + at(Pl.pos[i], Pl.mask[i], r) + " " + d.str() + " block=" + hexs(B.all, 1500));
+  }
+  ctx.count("faults_injected", (int64_t)res.size());
+}
+
+// =========================================================================== (3) validity: expiry, key age, future dating, weak hashes
+static const long H25 = 25 * 3600;
+// re-frame a signature packet with extra unhashed subpackets (the unhashed area is not covered by the signature)
+static Oct with_unhashed(const Oct &pkt, const Oct &uspd) {
+  std::vector<Span> sp; if (!split_packets(pkt, sp) || sp.size() != 1) return pkt;
+  const unsigned char *b = pkt.data() + sp[0].hdr; size_t hl = ((size_t)b[4] << 8) | b[5];
+  Oct body(b, b + 6 + hl); body.push_back(uspd.size() >> 8); body.push_back(uspd.size()); app(body, uspd); body.insert(body.end(), b + 8 + hl, b + sp[0].body);
+  Oct out; PGP::PacketTagEncode(2, out); PGP::PacketLengthEncode(body.size(), out); app(out, body); return out;
+}
+VF_SUB(sig_validity_time_and_weakhash, 700, 25000) {
+  PGP::MemoryGuardReset();
+  std::vector<Key *> sk = signing_keys(); std::vector<Key *> cheap; for (auto k : sk) if (k->verify_ms < 10) cheap.push_back(k);
+  Key &k = *cheap[ctx.c.index(cheap.size())]; const std::string A = algo_name(k.algo);
+  unsigned scen = (unsigned)ctx.c.weighted({4, 3, 4, 3, 4, 2});
+  static const char *names[] = {"expired", "older-than-key", "future-dated", "weak-hash", "key-block-defect", "unhashed-override"};
+  ctx.label(names[scen]); ctx.label(std::string("algo:") + A);
+  time_t T0 = vtime(); Oct data = gen_binary_doc(ctx, (size_t)ctx.c.range(0, 40));
+  auto strong = [&]() { for (int t = 0; t < 20; t++) { int h = STRONG_HASHES[ctx.c.index(5)]; if (hash_fits_key(k, h)) return (tmcg_openpgp_hashalgo_t)h; } return TMCG_OPENPGP_HASHALGO_SHA512; };
+  Oct pubpkt = key_packet(k, T0 - 1000, false), kid, fpr; PGP::KeyidCompute(body_of(pubpkt), kid); PGP::FingerprintCompute(body_of(pubpkt), fpr);
+  auto mk = [&](tmcg_openpgp_hashalgo_t h, time_t sigtime, time_t exp, std::unique_ptr<TMCG_OpenPGP_Signature> &sig, Oct *pktout = nullptr) -> bool {
+    int ver = ctx.c.prob(1, 6) ? 5 : 4; DocSig S = make_docsig(k, ver, false, h, sigtime, exp, "", (ver == 5 || ctx.c.coin()) ? fpr : kid, data);
+    if (!S.ok) { ctx.fail("sig/" + A + "/library-cannot-sign", S.err); return false; }
+    sig.reset(parse_sig(S.pkt)); if (pktout) *pktout = S.pkt;
+    if (!sig || !sig->Good()) { ctx.fail("sig/" + A + "/own-signature-unparsable", hexs(S.pkt, 300)); return false; }
+    if (!sig->VerifyData(k.pub, data, 0)) { ctx.fail("sig/" + A + "/untouched-signature-refused", ctx.desc.str()); return false; }
+    return true; };
+  std::unique_ptr<TMCG_OpenPGP_Signature> sig;
+  switch (scen) {
+    case 0: { // created now, lifetime E; judged at several later instants of the virtual clock
+      tmcg_openpgp_hashalgo_t h = strong(); time_t E = (time_t)ctx.c.small(2, 300000000), keyt = T0 - (time_t)ctx.c.range(0, 1000);
+      ctx.desc << k.name << " " << hash_name(h) << " lifetime=" << E << "s"; if (!mk(h, T0, E, sig)) return;
+      long before = (long)ctx.c.range(0, (uint64_t)E - 1), after = (long)E + 1 + (long)ctx.c.small(0, 400000000);
+      ctx.desc << " judged at +" << before << "s and +" << after << "s"; ctx.nontrivial(ctx.desc.str());
+      set_vnow(before); if (!sig->CheckValidity(keyt, 0)) ctx.fail("validity/unexpired-signature-refused", ctx.desc.str());
+      set_vnow(after); bool v = sig->CheckValidity(keyt, 0); set_vnow(0);
+      if (v) ctx.fail("validity/expired-signature-accepted", "CheckValidity accepted a signature " + std::to_string(after - (long)E) + "s after its expiration: " + ctx.desc.str());
+      else if (!sig->expired) ctx.fail("validity/expired-flag-not-set", ctx.desc.str());
+      // a signature without expiration subpacket never expires
+      std::unique_ptr<TMCG_OpenPGP_Signature> s2; if (mk(h, T0, 0, s2)) { set_vnow(after); bool v2 = s2->CheckValidity(keyt, 0); set_vnow(0); if (!v2) ctx.fail("validity/non-expiring-signature-refused", ctx.desc.str()); }
+      break; }
+    case 1: { // key creation time after the signature creation time
+      tmcg_openpgp_hashalgo_t h = strong(); time_t sigt = T0 - (time_t)ctx.c.range(0, 100000); long dlt = (long)ctx.c.small(1, 500000000);
+      ctx.desc << k.name << " " << hash_name(h) << " key created " << dlt << "s after the signature"; ctx.nontrivial(ctx.desc.str()); if (!mk(h, sigt, 0, sig)) return;
+      if (sig->CheckValidity(sigt + dlt, 0)) ctx.fail("validity/signature-older-than-key-accepted", ctx.desc.str());
+      if (!sig->CheckValidity(sigt, 0)) ctx.fail("validity/signature-as-old-as-key-refused", ctx.desc.str());
+      if (!sig->CheckValidity(sigt - (time_t)ctx.c.small(1, 1000000), 0)) ctx.fail("validity/signature-younger-than-key-refused", ctx.desc.str());
+      break; }
+    case 2: { // creation time beyond the documented tolerance of 25 hours
+      tmcg_openpgp_hashalgo_t h = strong(); long ahead = H25 + 3600 + (long)ctx.c.small(0, 400000000), near = (long)ctx.c.range(0, 23 * 3600); bool by_clock = ctx.c.coin();
+      ctx.desc << k.name << " " << hash_name(h) << " created " << ahead << "s ahead of the clock" << (by_clock ? " (clock moved back)" : ""); ctx.nontrivial(ctx.desc.str());
+      if (by_clock) { set_vnow(ahead); bool ok = mk(h, vtime(), 0, sig); set_vnow(0); if (!ok) return; } else if (!mk(h, T0 + ahead, 0, sig)) return;
+      if (sig->CheckValidity(T0 - 5000, 0)) ctx.fail("validity/far-future-signature-accepted", ctx.desc.str());
+      std::unique_ptr<TMCG_OpenPGP_Signature> s2; if (mk(h, T0 + near, 0, s2) && !s2->CheckValidity(T0 - 5000, 0)) ctx.fail("validity/slightly-ahead-signature-refused", "created " + std::to_string(near) + "s ahead (tolerance 25h): " + ctx.desc.str());
+      break; }
+    case 3: { // MD5, SHA-1, RIPEMD-160
+      std::vector<int> hs; for (int h : WEAK_HASHES) if (hash_fits_key(k, h)) hs.push_back(h);
+      if (hs.empty()) { ctx.count("skipped_no_weak_hash_for_key"); ctx.label("skipped"); ctx.desc << k.name << " cannot sign with a weak hash"; return; }
+      tmcg_openpgp_hashalgo_t h = (tmcg_openpgp_hashalgo_t)hs[ctx.c.index(hs.size())]; ctx.desc << k.name << " " << hash_name(h); ctx.label(std::string("hash:") + hash_name(h)); ctx.nontrivial(ctx.desc.str() + hkey(data));
+      if (!mk(h, T0, 0, sig)) return;
+      if (sig->CheckValidity(T0 - 1000, 0)) ctx.fail("validity/weak-hash-accepted", "CheckValidity accepted a " + std::string(hash_name(h)) + " signature: " + ctx.desc.str());
+      std::unique_ptr<TMCG_OpenPGP_Signature> s2; if (mk(strong(), T0, 0, s2) && !s2->CheckValidity(T0 - 1000, 0)) ctx.fail("validity/fresh-strong-signature-refused", ctx.desc.str());
+      break; }
+    case 4: { // the same defects inside a key block: the user ID / subkey must not become valid
+      BlockSpec sp; sp.prim = &k; sp.sub = &key_named(ctx.c.coin() ? "ecdh25519" : "rsa2048e"); sp.uid = gen_uid(ctx); sp.h_uid = sp.h_sub = strong();
+      sp.keytime = T0 - 100000; sp.subtime = sp.keytime + 10; sp.uidsigtime = sp.keytime + 20; sp.subsigtime = sp.subtime + 20;
+      unsigned defect = (unsigned)ctx.c.index(3), where = (unsigned)ctx.c.index(2); static const char *dn[] = {"older-than-key", "future-dated", "weak-hash"};
+      if (defect == 2) { std::vector<int> hs; for (int h : WEAK_HASHES) if (hash_fits_key(k, h)) hs.push_back(h); if (hs.empty()) defect = 0; else (where ? sp.h_sub : sp.h_uid) = (tmcg_openpgp_hashalgo_t)hs[ctx.c.index(hs.size())]; }
+      if (defect == 0) { (where ? sp.subsigtime : sp.uidsigtime) = (where ? sp.subtime : sp.keytime) - (time_t)ctx.c.small(1, 100000000); }
+      if (defect == 1) { (where ? sp.subsigtime : sp.uidsigtime) = T0 + H25 + 3600 + (time_t)ctx.c.small(0, 300000000); }
+      ctx.desc << k.name << " key block, " << (where ? "subkey binding" : "user ID certification") << " is " << dn[defect] << " (" << hash_name(where ? sp.h_sub : sp.h_uid) << ")"; ctx.label(std::string("block:") + dn[defect]); ctx.nontrivial(ctx.desc.str() + sp.uid);
+      Block B = build_block(sp); if (!B.ok) { ctx.fail("cert/" + A + "/library-cannot-build-block", B.err); return; }
+      unsigned v = eval_block(B.all, nullptr), bad = where ? V_SUB : (V_UID | V_KEY);
+      if (!(v & V_PARSED)) { ctx.fail("cert/" + A + "/untouched-block-unparsable", ctx.desc.str()); return; }
+      if (v & bad) ctx.fail(std::string("validity/key-block/") + dn[defect] + "-signature-accepted", "verdict {" + verdict_str(v) + "} for " + ctx.desc.str());
+      if (!(v & (where ? (V_UID | V_KEY) : 0)) && where) ctx.fail("cert/" + A + "/untouched-part-of-block-refused", "verdict {" + verdict_str(v) + "} for " + ctx.desc.str());
+      BlockSpec ok = sp; ok.h_uid = ok.h_sub = strong(); ok.uidsigtime = ok.keytime + 20; ok.subsigtime = ok.subtime + 20; Block G = build_block(ok);
+      if (G.ok) { unsigned vg = eval_block(G.all, nullptr); if ((vg & (V_KEY | V_UID | V_SUB)) != (V_KEY | V_UID | V_SUB)) ctx.fail("cert/" + A + "/untouched-block-refused", "control block verdict {" + verdict_str(vg) + "} for " + ctx.desc.str()); }
+      break; }
+    default: { // an expired signature dressed up with unhashed creation/expiration subpackets stays expired
+      tmcg_openpgp_hashalgo_t h = strong(); time_t E = (time_t)ctx.c.small(2, 1000000); Oct pkt;
+      ctx.desc << k.name << " " << hash_name(h) << " lifetime=" << E << "s with unhashed creation/expiration subpackets"; ctx.nontrivial(ctx.desc.str()); if (!mk(h, T0, E, sig, &pkt)) return;
+      long after = (long)E + 1 + (long)ctx.c.small(0, 100000000); Oct us, t4;
+      PGP::PacketTimeEncode(T0 + after, t4); PGP::SubpacketEncode(2, false, t4, us); Oct e4; PGP::PacketTimeEncode((time_t)0x7FFFFFF0 - T0, e4); PGP::SubpacketEncode(3, false, e4, us);
+      if (ctx.c.coin()) { Oct z(4, 0); PGP::SubpacketEncode(3, false, z, us); }
+      Oct forged = with_unhashed(pkt, us); time_t keyt = T0 - 1000;
+      auto res = run_forked(ctx, 1, [&](size_t) -> unsigned char {
+        TMCG_OpenPGP_Signature *s = nullptr; if (!PGP::SignatureParse(forged, 0, s)) return 0; unsigned char r = 4;
+        if (s->Good() && s->VerifyData(k.pub, data, 0)) r |= 1; set_vnow(after); if (s->CheckValidity(keyt, 0)) r |= 2; set_vnow(0); if (s->creationtime != T0 || s->expirationtime != E) r |= 8; delete s; return r; }, [&](size_t) { return forged; }, "sig");
+      if (res[0] < 0xF0) {
+        if ((res[0] & 3) == 3) ctx.fail("validity/expired-signature-revived-by-unhashed-subpackets", ctx.desc.str() + " sig=" + hexs(forged, 400));
+        else if (res[0] & 8) ctx.fail("validity/unhashed-subpackets-override-hashed-times", ctx.desc.str() + " sig=" + hexs(forged, 400));
+        if (res[0] & 4) ctx.label((res[0] & 1) ? "forged-unhashed-area:still-verifies" : "forged-unhashed-area:no-longer-verifies"); else ctx.label("forged-unhashed-area:unparsable");
+      }
+      ctx.count("faults_injected", 1);
+      break; }
+  }
+  set_vnow(0);
 }
